@@ -509,6 +509,63 @@ func ruleDigitKill(c *Ctx) {
 	if n < 8 {
 		c.undecided("digitkill.count", nil, fmt.Sprintf("only %d loop-carried guard digits found", n))
 	}
+	// a guard digit may be reset to zero only where it is known to be zero already
+	for _, name := range p.sortedFuncNames() {
+		fd := p.Funcs[name]
+		if fd.Body == nil || !strings.HasPrefix(name, "RoundingMode.reduce") {
+			continue
+		}
+		digits := map[string]bool{}
+		ast.Inspect(fd.Body, func(nd ast.Node) bool {
+			if as, ok := nd.(*ast.AssignStmt); ok && len(as.Lhs) == 2 && len(as.Rhs) == 1 {
+				if call, ok := as.Rhs[0].(*ast.CallExpr); ok && strings.HasSuffix(p.calleeName(call), ".div10") && !isBlank(as.Lhs[1]) {
+					digits[p.exprKey(as.Lhs[1])] = true
+				}
+			}
+			return true
+		})
+		k := 0
+		walkStack(fd.Body, func(nd ast.Node, stack []ast.Node) {
+			as, ok := nd.(*ast.AssignStmt)
+			if !ok || as.Tok != token.ASSIGN || len(as.Lhs) != 1 || len(as.Rhs) != 1 || !digits[p.exprKey(as.Lhs[0])] {
+				return
+			}
+			if v, ok := p.constInt64(as.Rhs[0]); !ok || v != 0 {
+				return
+			}
+			k++
+			dkey := p.exprKey(as.Lhs[0])
+			known := false
+			for _, f := range p.factsAt(append(append([]ast.Node{}, stack...), nd), func(s ast.Stmt) bool { return p.assignsTo(s, dkey) }) {
+				x, op, kv, ok := p.normCmp(f.cond)
+				if !ok || kv.Sign() != 0 {
+					continue
+				}
+				if !f.val {
+					op = negOp(op)
+				}
+				if op != token.EQL {
+					continue
+				}
+				// x == 0 where x is an or-chain of non-negative words containing the digit
+				var parts func(e ast.Expr) []ast.Expr
+				parts = func(e ast.Expr) []ast.Expr {
+					e = ast.Unparen(e)
+					if be, ok := e.(*ast.BinaryExpr); ok && be.Op == token.OR {
+						return append(parts(be.X), parts(be.Y)...)
+					}
+					return []ast.Expr{e}
+				}
+				for _, part := range parts(x) {
+					if p.exprKey(part) == dkey {
+						known = true
+					}
+				}
+			}
+			c.check(known, fmt.Sprintf("digitreset:%s#%d", name, k), as, "the guard digit is cleared only where it is already zero",
+				name+": the guard digit is set to 0 at a point where it may be non-zero (no dominating `... | digit == 0`): a dropped digit of 5 or more would be forgotten and the value flushed instead of rounded", funcProps(name)...)
+		})
+	}
 }
 
 // ruleGuardDigit (S6): dividing by 10^k, k > 1, in reduceN: digit = rem/10^(k-1),
